@@ -23,7 +23,7 @@ Definition invb (s : state) : bool :=
   && eqb (is_mine (mutex s)) (in_mu (p s))
   && eqb (is_mine (inl s)) (in_il (p s))
   && match ret s with
-     | Some RNil => complete s
+     | Some RNil => complete s || reneg s
      | Some RHsErr => hs_err s
      | Some RCtx => conn_closed s && cancelled s && is_pret (p s)
      | Some RBuildErr => true
@@ -49,11 +49,11 @@ Definition rets := [None; Some RNil; Some RHsErr; Some RBuildErr; Some RCtx].
 Definition all_states : list state :=
   flat_map (fun mu => flat_map (fun il => flat_map (fun co => flat_map (fun he => flat_map (fun cl =>
   flat_map (fun cn => flat_map (fun ca => flat_map (fun dc => flat_map (fun i => flat_map (fun q =>
-  map (fun r => mkState mu il co he cl cn ca dc i q r) rets) pcs) intrs) bools) bools) bools) bools) bools) bools) owners) owners.
+  flat_map (fun r => map (fun rn => mkState mu il co he cl cn ca dc i q r rn) bools) rets) pcs) intrs) bools) bools) bools) bools) bools) bools) owners) owners.
 
 Lemma all_states_complete s : In s all_states.
 Proof.
-  destruct s as [mu il co he cl cn ca dc i q r]. unfold all_states.
+  destruct s as [mu il co he cl cn ca dc i q r rn]. unfold all_states.
   apply in_flat_map. exists mu. split; [destruct mu; cbn; auto|].
   apply in_flat_map. exists il. split; [destruct il; cbn; auto|].
   apply in_flat_map. exists co. split; [destruct co; cbn; auto|].
@@ -64,7 +64,8 @@ Proof.
   apply in_flat_map. exists dc. split; [destruct dc; cbn; auto|].
   apply in_flat_map. exists i. split; [destruct i; cbn; auto|].
   apply in_flat_map. exists q. split; [destruct q; cbn; auto 20|].
-  apply in_map. destruct r as [[| | |]|]; cbn; auto 10.
+  apply in_flat_map. exists r. split; [destruct r as [[| | |]|]; cbn; auto 10|].
+  apply in_map. destruct rn; cbn; auto.
 Qed.
 
 Lemma sweep (P : state -> bool) : forallb P all_states = true -> forall s, P s = true.
@@ -87,7 +88,7 @@ Proof. intros I R. induction R as [|s l s' R IH S]; [exact I|]. eapply inv_step;
 (* properties of single states / single steps, each decided by a sweep over the states satisfying the invariant *)
 Definition outcome_p (s : state) : bool :=
   implb (invb s && returned s)
-        (match ret s with Some r => outcome_ok r (complete s) (hs_err s) (conn_closed s) (cancelled s) | None => false end).
+        (match ret s with Some r => outcome_ok r (complete s) (hs_err s) (conn_closed s) (cancelled s) (reneg s) | None => false end).
 Lemma outcome_all : forallb outcome_p all_states = true. Proof. vm_compute. reflexivity. Qed.
 
 Definition progress_p (s : state) : bool := implb (invb s && negb (returned s)) (can_progress s).
